@@ -29,6 +29,11 @@ Proof. intros. unfold target_of. now rewrite map_app, app_assoc. Qed.
 
 (* the base itself: into an existing directory -> dest/<last component>,
    otherwise (or with no-target-directory) -> dest *)
+(* a source whose last component is `..` (dir/.., ..) is copied into the destination ITSELF, as cp does: dest/.. would be the
+   destination's parent — entries created outside the destination (defect found in round 7, repaired) *)
+Theorem C02_dotdot_source_maps_onto_the_destination : forall dest source dd ntd,
+  last_comp source = Some CParent -> target_base dest source dd ntd = Some dest.
+Proof. intros dest source dd ntd H. unfold target_base. rewrite H. cbn [comp_eqb negb]. rewrite andb_false_r. reflexivity. Qed.
 Theorem C02_target_base_rule : forall dest source n,
   last_comp source = Some (CNormal n) ->
   target_base dest source true false = Some (join dest [CNormal n]) /\
@@ -85,6 +90,7 @@ Proof. exact pin_parblock_dispatch_worker. Qed.
 Print Assumptions C02_target_injective.
 Print Assumptions C02_child_below_parent.
 Print Assumptions C02_target_base_rule.
+Print Assumptions C02_dotdot_source_maps_onto_the_destination.
 Print Assumptions C02_entries_distinct.
 Print Assumptions C02_mirror_on_success.
 Print Assumptions C02_sizes_sum.
